@@ -11,6 +11,9 @@ HARNESS = {"zz_verif_test.go": os.path.join(vlib.ROOT, "harness", "outputstream"
 
 # regression corpus (runs first): the two repaired defects as sequential shadows + TestDeleteMiddle
 CORPUS = [
+    # fixed: Add 5, Add 7, Delete 5 before the reader parked behind 0 runs -> it went back to sleep although 7 is stored
+    ["park 1 0", "burst add 0 1 5 1 61 0 ; add 0 1 7 1 62 0 ; del 5", "join 1", "next 0"],
+    ["add 0 1 5 1 61 0", "park 1 5", "burst add 0 1 7 1 62 0 ; del 7", "join 1", "add 0 1 9 1 63 0", "join 1"],
     # fixed: reader parked behind the tail, tail deleted, next Add -> nil dereference in the wait loop
     ["add 0 1 1 1 61 0", "add 0 1 2 1 62 0", "park 1 2", "del 2", "add 0 1 3 1 63 0", "join 1", "next 0"],
     # fixed: GetNext(20) on {0,15} parked, Add(16) returned batch 16 (<= 20)
@@ -22,54 +25,104 @@ CORPUS = [
 ]
 
 
+def parse_add(g):
+    n = int(g[2]); msgs, p = [], 3
+    for _ in range(n):
+        k = int(g[p + 3])
+        msgs.append((int(g[p]), int(g[p + 1]), bytes.fromhex(g[p + 2]) if g[p + 2] != "-" else b"", [int(x) for x in g[p + 4:p + 4 + k]]))
+        p += 4 + k
+    return msgs
+
+
+def valid(ops):
+    """preconditions of the property: Add ids strictly increase, the sentinel is never deleted"""
+    mx = 0
+    for op in ops:
+        for sub in (" ".join(op.split()[1:]).split(" ; ") if op.startswith("burst") else [op]):
+            g = sub.split()
+            if g[0] == "reset":
+                mx = 0
+            elif g[0] == "add" and int(g[2]) > 0:
+                if int(g[3]) <= mx:
+                    return False
+                mx = int(g[3])
+            elif g[0] == "del" and int(g[1]) == 0:
+                return False
+    return True
+
+
 def oracle(ops, outs):
     """Property oracle on the implementation's own answers, against a plain sorted map:
     `next x` returns the batch with the smallest stored id > x, or blocks iff there is none;
-    `get id` returns exactly what was added under id while it is stored."""
+    `get id` returns exactly what was added under id while it is stored; a blocked GetNext
+    returns the smallest stored id above x as soon as one exists (for readers that were parked
+    during a `burst` any instant of the burst is allowed), returns [] once cancelled and woken,
+    never panics and never stays blocked although a successor exists."""
     store = {0: "[0.0:-:]"}
-    readers = {}   # tid -> [x, expected status]
+    readers = {}   # tid -> dict(x, rets=set of acceptable return values, parked=may still be parked)
 
     def succ(x):
         gt = sorted(k for k in store if k > x)
         return "ret:" + store[gt[0]] if gt else None
+
+    def wake_all(final):
+        for r in readers.values():
+            if r["parked"] and succ(r["x"]):
+                r["rets"].add(succ(r["x"]))
+                if final:
+                    r["parked"] = False
     for i, (op, out) in enumerate(zip(ops, outs)):
         f = op.split()
         if "reader-panic" in out:
-            return i, "panic inside a blocked GetNext after `%s`" % op
-        if out.endswith("unsettled") or out == "poisoned":
-            if out == "poisoned":
-                continue
-            return i, "unsettled: readers neither returned nor parked within 3s after `%s`" % op
+            return i, "panic inside a blocked GetNext after `%s`" % op[:60]
+        if out == "poisoned":
+            continue
+        if out.endswith("unsettled"):
+            return i, "unsettled: readers neither returned nor parked within 3s after `%s`" % op[:60]
         if f[0] == "reset":
             store = {0: "[0.0:-:]"}
             readers = {}
+        elif f[0] == "burst":
+            subs = " ".join(f[1:]).split(" ; ")
+            for sub, o1 in zip(subs, out.split(",")):
+                g = sub.split()
+                if g[0] == "add" and o1 == "ok":
+                    msgs = parse_add(g)
+                    store[msgs[0][0]] = gs.canon_msgs(msgs)
+                elif g[0] == "del" and o1 == "ok":
+                    store.pop(int(g[1]), None)
+                wake_all(False)
+            wake_all(True)
         elif f[0] == "park":
             want = succ(int(f[2])) or "parked"
-            readers[f[1]] = [int(f[2]), want]
+            readers[f[1]] = dict(x=int(f[2]), rets=set() if want == "parked" else {want}, parked=(want == "parked"))
             if out != want:
                 return i, "GetNext(%s) %s, expected %s" % (f[2], out[:80], want[:80])
         elif f[0] == "join":
-            if f[1] not in readers:
+            r = readers.get(f[1])
+            if r is None:
                 continue
-            want = readers[f[1]][1]
-            want = "blocked" if want == "parked" else want
-            if out != want:
-                return i, "reader of GetNext(%d): %s, expected %s" % (readers[f[1]][0], out[:80], want[:80])
+            if out == "blocked":
+                if not r["parked"]:
+                    return i, "reader of GetNext(%d) stays blocked although %s" % (r["x"], "a successor is stored" if succ(r["x"]) else "it was cancelled and woken")
+                r["rets"] = set()
+            else:
+                if out not in r["rets"]:
+                    return i, "reader of GetNext(%d) returned %s, which was never the smallest stored id above x (acceptable: %s)" % (r["x"], out[:60], sorted(x[:30] for x in r["rets"]))
+                r["rets"], r["parked"] = {out}, False
         elif f[0] == "cancel":
             for t, r in readers.items():
-                if r[1] == "parked" and t == f[1]:
-                    r[1] = "ret:[]"
+                if r["parked"]:
+                    if t == f[1]:
+                        r["rets"].add(succ(r["x"]) or "ret:[]")
+                        r["parked"] = False
+                    elif succ(r["x"]):
+                        r["rets"].add(succ(r["x"]))
+                        r["parked"] = False
         elif f[0] == "add" and out == "ok":
-            n = int(f[2])
-            msgs, p = [], 3
-            for _ in range(n):
-                k = int(f[p + 3])
-                msgs.append((int(f[p]), int(f[p + 1]), bytes.fromhex(f[p + 2]) if f[p + 2] != "-" else b"", [int(x) for x in f[p + 4:p + 4 + k]]))
-                p += 4 + k
+            msgs = parse_add(f)
             store[msgs[0][0]] = gs.canon_msgs(msgs)
-            for t, r in readers.items():
-                if r[1] == "parked" and succ(r[0]):
-                    r[1] = succ(r[0])   # must return as soon as a successor is added
+            wake_all(True)
         elif f[0] == "del" and out == "ok":
             store.pop(int(f[1]), None)
         elif f[0] == "get":
@@ -82,9 +135,9 @@ def oracle(ops, outs):
             want = store[gt[0]] if gt else "blocked"
             if out != want:
                 return i, "next %s returned %s, smallest stored id > x is %s" % (x, out[:80], (str(gt[0]) if gt else "none (must block)"))
-        if out == "panic" and f[0] != "add":
+        if "panic" in out and f[0] != "add":
             if not (f[0] == "del" and len(store) <= 1):
-                return i, "%s panicked" % op
+                return i, "%s panicked" % op[:60]
     return None
 
 
@@ -128,6 +181,22 @@ def check(run):
     d = vlib.workdir("c08")
     gl, ll, di, err = vlib.differential(run, "stream", ops, exe, "stream", env_extra={"VERIF_TMP": d})
     shutil.rmtree(d, ignore_errors=True)
+    # readers that were parked during a burst may legitimately have run at any instant of it:
+    # their later `join` lines are judged by the oracle only (membership), not by equality
+    if di is not None:
+        touched, gm, lm = set(), list(gl), list(ll)
+        parked_now = set()
+        for j, o in enumerate(ops):
+            f = o.split()
+            if f[0] == "reset":
+                touched, parked_now = set(), set()
+            elif f[0] == "park":
+                parked_now.add(f[1])
+            elif f[0] == "burst":
+                touched |= parked_now
+            elif f[0] == "join" and f[1] in touched and j < len(gm) and j < len(lm):
+                gm[j] = lm[j] = "*"
+        di = vlib.first_diff(gm, lm)
     corr_ok = di is None and err is None and len(gl) == len(ops)
     run.obligation("correspondence: real OutputStream == Lean model on %d sequential programs (%d ops)" % (len(progs), len(ops)), corr_ok,
                    err or ("first difference at op %s `%s`: go=%s lean=%s" % (di, ops[di] if di is not None and di < len(ops) else "", gl[di][:200] if di is not None and di < len(gl) else "<missing>", ll[di][:200] if di is not None and di < len(ll) else "<missing>")))
@@ -146,7 +215,7 @@ def check(run):
             dd = vlib.workdir("c08s")
             g, l, _, _ = vlib.differential(run, "shrink", ["reset"] + cand, exe, "stream", env_extra={"VERIF_TMP": dd})
             shutil.rmtree(dd, ignore_errors=True)
-            return oracle(["reset"] + cand, g) is not None
+            return valid(cand) and oracle(["reset"] + cand, g) is not None
         small = shrink(prog, fails) if len(prog) < 400 else prog
         run.violation("oracle:" + why.split(" ")[0], why, {"kind": "stream", "ops": small, "why": why}, True)
     elif not proved or not corr_ok:
